@@ -998,14 +998,18 @@ static int sufficientCondition(std::string op1, const bool not1, const T value1,
             res = -1;
         else if (op2 == "==")
             res = 1;
-        else if (op1 == ">" && op2 == ">=")
-            res = sign(value1 - (value2 - 1));
-        else if (op1 == ">=" && op2 == ">")
-            res = sign((value1 - 1) - value2);
-        else if (op1 == "<" && op2 == "<=")
-            res = -sign(value1 - (value2 + 1));
-        else if (op1 == "<=" && op2 == "<")
-            res = -sign((value1 + 1) - value2);
+        else {
+            // strict and non-strict comparison in the same direction: same sign convention as for equal operators
+            equal = true;
+            if (op1 == ">" && op2 == ">=")
+                res = sign(value1 - (value2 - 1));
+            else if (op1 == ">=" && op2 == ">")
+                res = sign((value1 - 1) - value2);
+            else if (op1 == "<" && op2 == "<=")
+                res = -sign(value1 - (value2 + 1));
+            else if (op1 == "<=" && op2 == "<")
+                res = -sign((value1 + 1) - value2);
+        }
     }
     return res * (isAnd == equal ? 1 : -1);
 }
